@@ -124,6 +124,8 @@ def _is_set_expr(e: ast.AST, setvars: set) -> bool:
             return True
     if isinstance(e, ast.Name) and e.id in setvars:
         return True
+    if isinstance(e, ast.Attribute) and ('.' + e.attr) in setvars:      # class-level set reached as self.X / cls.X / C.X
+        return True
     if isinstance(e, ast.BinOp) and isinstance(e.op, (ast.BitOr, ast.BitAnd, ast.Sub, ast.BitXor)):
         return _is_set_expr(e.left, setvars) and _is_set_expr(e.right, setvars)
     return False
@@ -165,11 +167,13 @@ def _elem_kind(e: ast.AST) -> str:
     return 'unknown'
 
 
-def hash_ordered_uses(fn: ast.AST):
+def hash_ordered_uses(fn: ast.AST, outer: dict = None):
     """Yield (node, source expr, elem kind) for order-sensitive consumption of a
-    hash-ordered container inside function `fn`."""
-    setvars = set()
-    src_of = {}
+    hash-ordered container inside function `fn`.  `outer` maps names defined
+    outside the function (module globals; '.attr' for class-level attributes)
+    to their set-valued defining expressions."""
+    setvars = set(outer or ())
+    src_of = dict(outer or {})
     changed = True
     body_nodes = list(walk_no_nested(fn))
     while changed:
@@ -184,6 +188,8 @@ def hash_ordered_uses(fn: ast.AST):
     def src(e):
         if isinstance(e, ast.Name) and e.id in src_of:
             return src_of[e.id]
+        if isinstance(e, ast.Attribute) and ('.' + e.attr) in src_of:
+            return src_of['.' + e.attr]
         return e
     for n in body_nodes:
         if isinstance(n, ast.For) and _is_set_expr(n.iter, setvars):
@@ -238,6 +244,24 @@ def _order_functions(ctx: Ctx):
     return out
 
 
+def _outer_sets(m, ci, fn) -> dict:
+    """Set-valued names visible in `fn` from outside it: module-level constants (also imported ones) and
+    class-level attributes of the class and its bases."""
+    out = {}
+    local = {n.id for n in ast.walk(fn) if isinstance(n, ast.Name) and isinstance(n.ctx, ast.Store)}
+    local |= {a.arg for a in ast.walk(fn) if isinstance(a, ast.arg)}
+    for n in ast.walk(fn):
+        if isinstance(n, ast.Name) and isinstance(n.ctx, ast.Load) and n.id not in local and n.id not in out:
+            r = m.resolve(ci.module, n.id)
+            if r and r[0] == 'value' and _is_set_expr(r[2], set()):
+                out[n.id] = r[2]
+    for c in ci.mro or [ci]:
+        for a, v in c.attrs.items():
+            if _is_set_expr(v, set()) and ('.' + a) not in out:
+                out['.' + a] = v
+    return out
+
+
 def _r023(ctx: Ctx) -> None:
     m = ctx.model
     funcs = _order_functions(ctx)
@@ -245,7 +269,7 @@ def _r023(ctx: Ctx) -> None:
     ctx.need(len(funcs) >= 60, 'R02.3', 'panqec/codes', f'only {len(funcs)} order-defining functions found')
     tainted = 0
     for (q, name), (ci, fn) in sorted(funcs.items()):
-        uses = list(hash_ordered_uses(fn))
+        uses = list(hash_ordered_uses(fn, _outer_sets(m, ci, fn)))
         viol = [u for u in uses if u[2] == 'str']
         und = [u for u in uses if u[2] != 'str']
         for node, srcexpr, kind in und:
@@ -339,10 +363,16 @@ def run(ctx: Ctx) -> None:
     ctx.rule('R02.3', 'no hash-ordered container defines qubit, stabilizer or logical order', floor=60)
     ctx.trust('scipy csr slicing / boolean row indexing / getnnz semantics as modelled by pqv.symnp.MiniCSR',
               'CPython hashes ints and tuples of ints deterministically (no per-process randomisation)')
-    stabilizer_code_tables(ctx, 'R02.1')
-    _r022(ctx)
-    _r023(ctx)
-    _r024(ctx)
+    with ctx.part():
+        stabilizer_code_tables(ctx, 'R02.1')
+    with ctx.part():
+        _r022(ctx)
+    with ctx.part():
+        _r023(ctx)
+    with ctx.part():
+        _r024(ctx)
     from .c06 import code_state_rule, frozen_rule
-    frozen_rule(ctx, 'R02.5', 'panqec.codes')
-    code_state_rule(ctx, 'R02.5')
+    with ctx.part():
+        frozen_rule(ctx, 'R02.5', 'panqec.codes')
+    with ctx.part():
+        code_state_rule(ctx, 'R02.5')
